@@ -17,14 +17,16 @@ extern int g_no_error;
 struct type g_t10, g_t20;
 
 #define BF(w) ((w) != -1u ? (w) : 0)
-#define D1    (desc_of(t1, 1))
-#define D2    (desc_of(t2, t2 == t1 ? 1 : 2))
+/* descriptors of the operands and of the result: computed once into ghosts (bound in PRE / by cr_call) */
+struct spec_type g_D1, g_D2, g_RD;
+#define D1    g_D1
+#define D2    g_D2
 /* the oracle's verdicts are computed once into ghosts (bound in PRE); the clauses read the ghosts */
 struct spec_type g_S, g_SW, g_P1, g_P2;
 #define S     g_S
 #define SW    g_SW
 #define SAME_DESC(a, b) ((a).cls == (b).cls && (a).rank == (b).rank && (a).sg == (b).sg && (a).id == (b).id && (a).either == (b).either)
-#define RD    (desc_of(HRET, HRET == t1 ? 1 : HRET == t2 ? 2 : 0))
+#define RD    g_RD
 #define P1    g_P1
 #define P2    g_P2
 /* last rule of 6.3.1.8 ("the unsigned integer type corresponding to the type of the operand with signed integer type")
@@ -41,6 +43,7 @@ struct spec_type g_S, g_SW, g_P1, g_P2;
 	X(IMP(w2 != -1u, (D2.cls == SPEC_CINT && w2 >= 1 && w2 <= 8 * t2->size))) \
 	/* every pair of real types has a common real type: the internal-error exit must be unreachable */ \
 	X(g_no_error == 1) \
+	X(SAME_DESC(g_D1, desc_of(t1, 1)) && SAME_DESC(g_D2, desc_of(t2, t2 == t1 ? 1 : 2))) \
 	X(SAME_DESC(g_S, spec_common_real(D1, BF(w1), D2, BF(w2)))) \
 	X(SAME_DESC(g_SW, spec_common_real(D2, BF(w2), D1, BF(w1)))) \
 	X(SAME_DESC(g_P1, spec_promote(D1, BF(w1))) && SAME_DESC(g_P2, spec_promote(D2, BF(w2)))) \
@@ -71,6 +74,17 @@ struct spec_type g_S, g_SW, g_P1, g_P2;
 
 static struct type h_enum1, h_enum2;
 
+/* the REAL typecommonreal, plus the descriptor of what it returned */
+static inline struct type *
+cr_call(struct type *t1, unsigned w1, struct type *t2, unsigned w2)
+{
+	struct type *r = typecommonreal(t1, w1, t2, w2);
+
+	if (r)
+		g_RD = desc_of(r, r == t1 ? 1 : r == t2 ? 2 : 0);
+	return r;
+}
+
 static inline void
 cr_run(unsigned in_t1, unsigned in_b1, unsigned in_t2, unsigned in_b2, bool in_charsigned, unsigned w1, unsigned w2)
 {
@@ -85,9 +99,11 @@ cr_run(unsigned in_t1, unsigned in_b1, unsigned in_t2, unsigned in_b2, bool in_c
 	t2 = in_t2 < NREALOBJ ? real_obj(in_t2) : in_t2 == 15 ? &h_enum1 : &h_enum2;
 	g_no_error = 1;
 	g_t10 = *t1; g_t20 = *t2;
+	g_D1 = desc_of(t1, 1);
+	g_D2 = desc_of(t2, t2 == t1 ? 1 : 2);
 	g_S = spec_common_real(D1, BF(w1), D2, BF(w2));
 	g_SW = spec_common_real(D2, BF(w2), D1, BF(w1));
 	g_P1 = spec_promote(D1, BF(w1));
 	g_P2 = spec_promote(D2, BF(w2));
-	HCALLR(struct type *, PRE_CR, POST_CR, typecommonreal(t1, w1, t2, w2));
+	HCALLR(struct type *, PRE_CR, POST_CR, cr_call(t1, w1, t2, w2));
 }
